@@ -43,8 +43,10 @@ PROPS = {
                        "the invariant 'every index map is exactly the grouping of the cached rows by index key, without empty entries' is preserved by every "
                        "operation that does not create a transient schema-index duplicate, hence by every batch in every order for client indexes and for "
                        "hand-over-free batches; under the invariant every index lookup equals a scan, an entry exists iff some row has the value, and the "
-                       "duplicate check is exact. The hand-over case on schema indexes (taker applied before giver) is decided by the correspondence check "
-                       "(model with the repaired overwrite/remove-if-own semantics evaluated on the orders the harness forces) - theorem named _partial."),
+                       "duplicate check is exact. The hand-over case on schema indexes (taker applied before giver) is the theorem C05_batch_any_order "
+                       "(Cache/IndexBatch.v): with unique rows before and after, a batch applies in every order and leaves every index exactly the grouping of "
+                       "the rows - through an invariant of the middle of a batch (an entry points at the last writer of its key; an entry pointing at a row "
+                       "not yet applied means no applied row holds the key). Multi-column keys tell an unset optional column from its neighbour's value."),
         "level_note": ("Trusted: Coq kernel + vm_compute, std++; Go harness (own cacheUpdate type forcing the application order); gob+sha256 multi-column key modelled as "
                        "the tuple of non-nil values. Whole sets/maps as index values (unhashable in Go) are outside the model."),
         "rule": ("sequences of 2..8 (thorough 2..14) steps on a real TableCache under 9 index configurations (none, single/multi-column schema, client plain/optional/"
